@@ -609,9 +609,9 @@ pub fn run_prop<P: Prop>(p: &P, tier: Tier, seed: u64, fuzz_stats: Option<Value>
 
     // 4. evidence
     let distinct = all.distinct.len() as u64;
-    let mut samples = all.samples.clone();
-    if let Some((_, v)) = &all.largest {
-        samples.push(json!({"largest_case": v}));
+    let mut samples: Vec<Value> = all.samples.iter().map(|v| compact(v, 48)).collect();
+    if let Some((sz, v)) = &all.largest {
+        samples.push(json!({"largest_case": compact(v, 48), "its_size_measure": sz}));
     }
     if samples.is_empty() {
         samples.push(json!("no non-trivial case was generated"));
@@ -797,6 +797,24 @@ pub fn fuzz_one<P: Prop>(p: &P, data: &[u8], findings: &Findings) {
             }
             _ => {}
         }
+    }
+}
+
+/// Keep evidence files small: arrays longer than `max` elements are cut to their first `max/2` elements
+/// plus a marker saying how many were omitted (a 70 000-segment sample would otherwise weigh megabytes).
+fn compact(v: &Value, max: usize) -> Value {
+    match v {
+        Value::Array(a) => {
+            if a.len() > max {
+                let mut out: Vec<Value> = a.iter().take(max / 2).map(|x| compact(x, max)).collect();
+                out.push(Value::String(format!("... {} more elements omitted from this sample (total {})", a.len() - max / 2, a.len())));
+                Value::Array(out)
+            } else {
+                Value::Array(a.iter().map(|x| compact(x, max)).collect())
+            }
+        }
+        Value::Object(o) => Value::Object(o.iter().map(|(k, x)| (k.clone(), compact(x, max))).collect()),
+        other => other.clone(),
     }
 }
 
